@@ -231,6 +231,16 @@ func diagWorker(req N) (resp N) {
 			events = append(events, ev)
 		}
 	}
+	// ONE compiler for several inputs (a REPL): after an input that failed to compile - inside a template string, a
+	// function, a loop - the error of the next input is located in THAT input's text
+	if n := int(req["n"].(float64)); n > 0 {
+		firsts := []string{"\n\n\n\n\t\t  zq := 'val {1 + undefq} end'\n", "\n\n\nfunc fq() {\n\n\t\treturn [1, 2, undefq]\n}\n",
+			"\n\n\nfor iq := 0; iq < 2; iq++ {\n\n\t\t\tprint('{iq} {undefq}')\n}\n", "\n\n\n\n\n          const cq = 1; cq = 2\n"}
+		seconds := []string{"yq := nowhereq", "print(nowhereq)", "wq := 'a{nowhereq}'", "break"}
+		if ev := diagnoseReuse(firsts[rnd.Intn(len(firsts))], seconds[rnd.Intn(len(seconds))]); ev != nil {
+			events = append(events, ev)
+		}
+	}
 	if n := int(req["n"].(float64)); n > 0 {
 		t := tails[rnd.Intn(len(tails))]
 		base := r.Source()
@@ -286,6 +296,42 @@ func relayout(src string, rnd *rand.Rand) string {
 }
 
 // diagnose parses and compiles src and describes the reported error, if any.
+// diagnoseReuse compiles two inputs with one compiler and reports the diagnostic of the SECOND (positions are judged
+// against the second input's text).
+func diagnoseReuse(first, second string) (ev N) {
+	defer func() {
+		if r := recover(); r != nil {
+			ev = N{"src": run.Cps(second), "stage": "panic", "panic": fmt.Sprint(r)}
+		}
+	}()
+	cfg := risor.NewConfig()
+	c, err := compiler.New(cfg.CompilerOpts()...)
+	if err != nil {
+		return nil
+	}
+	if prog, perr := parser.Parse(context.Background(), first); perr == nil {
+		_, _ = c.Compile(prog)
+	}
+	prog, perr := parser.Parse(context.Background(), second)
+	if perr != nil {
+		return nil
+	}
+	if _, cerr := c.Compile(prog); cerr != nil {
+		msg := cerr.Error()
+		ev := N{"src": run.Cps(second), "stage": "compile", "haspos": false, "msg": msg}
+		if k := strings.Index(msg, "(line "); k >= 0 {
+			var l, col int
+			if n, _ := fmt.Sscanf(msg[k:], "(line %d, column %d)", &l, &col); n == 2 {
+				ev["haspos"] = true
+				ev["line"], ev["col"] = l, col
+				ev["eline"], ev["ecol"] = l, col
+			}
+		}
+		return ev
+	}
+	return nil
+}
+
 func diagnose(src string) (ev N) {
 	defer func() {
 		if r := recover(); r != nil {
